@@ -32,6 +32,35 @@ IGNORE = "# static analysis: ignore"
 #   "t" trailing comment allowed, "o" an own-line comment may be inserted before it.
 
 PREAMBLE = ["import os", "def takes_int(x: int) -> None: pass"]
+# constructs whose diagnostics are decided under catch_errors() (operator resolution, `in`, overloads,
+# union receivers): whether they are reported depends on errors *recorded* during a trial
+TYPED_PREAMBLE = [
+    "from typing import overload, Union",
+    "@overload",
+    "def ov(a: int) -> int: ...",
+    "@overload",
+    "def ov(a: str) -> str: ...",
+    "def ov(a): return a",
+    "class R1:",
+    "    def meth(self, a: int) -> int: return a",
+    "class R2:",
+    "    def meth(self, a: str) -> str: return a",
+]
+TYPED_PARAMS = ", xi: int = 0, ys: str = '', un: Union[R1, R2] = R1(), fl: float = 0.5"
+TYPED_TEMPLATES = [
+    (["print(xi + ys)"], ["to"]),
+    (["print(ys * ys)"], ["to"]),
+    (["xi += ys"], ["to"]),
+    (["print(1 in xi)"], ["to"]),
+    (["print(ov(fl))"], ["to"]),
+    (["print(un.meth(fl))"], ["to"]),
+    (["print(xi + ys, undef_{k})"], ["to"]),
+    (["print(-ys)"], ["to"]),
+    (["print(xi < ys)"], ["to"]),
+    (["print(", "    xi + ys,", "    ov(fl),", ")"], ["to", "to", "to", "to"]),
+]
+# codes that are raised inside such trials even when no diagnostic of that code is finally reported
+HIDDEN_CODES = ["incompatible_argument", "incompatible_call", "unsupported_operation", "undefined_attribute", "not_callable"]
 
 # (lines relative to the body indentation, per-line tags)
 TEMPLATES = [
@@ -81,9 +110,12 @@ def gen_program(rng, size=None):
     elif head == "docstring":
         lines.append('"""module docstring"""')
         tags.append("to")
-    for l in PREAMBLE:
+    typed = rng.random() < 0.6
+    for l in PREAMBLE + (TYPED_PREAMBLE if typed else []):
         lines.append(l)
         tags.append("to")
+    templates = TEMPLATES + (TYPED_TEMPLATES * 2 if typed else [])
+    params = TYPED_PARAMS if typed else ""
     nfun = size or rng.choice([1, 2, 2, 3])
     for fi in range(nfun):
         ind = 0
@@ -91,14 +123,14 @@ def gen_program(rng, size=None):
             lines.append(f"class K{fresh()}:")
             tags.append("to")
             ind = 4
-            lines.append(" " * ind + f"def m{fresh()}(self, x{k[0]}_cond=None):")
+            lines.append(" " * ind + f"def m{fresh()}(self, x{k[0]}_cond=None{params}):")
         else:
-            lines.append(" " * ind + f"def f{fresh()}(x{k[0]}_cond=None):")
+            lines.append(" " * ind + f"def f{fresh()}(x{k[0]}_cond=None{params}):")
         tags.append("to")
         body = ind + 4
         nst = rng.choice([1, 2, 3, 4, 5])
         for _ in range(nst):
-            tl, tt = rng.choice(TEMPLATES)
+            tl, tt = rng.choice(templates)
             kk = fresh()
             for a, b in zip(tl, tt):
                 a = a.format(k=kk).replace(f"x{kk}_cond", "True")
@@ -344,10 +376,28 @@ GUARDS = {"C11-ignore-text-in-string": guard_text_outside_comment, "C11-splitlin
 # ---------------------------------------------------------------------------
 
 def gen_files():
-    return tr_lines.gen_files(str(lib.REPO))
+    # Properties/C11.v composes with C18's lookup: Gen/Options.v is regenerated too
+    from translate import options as tr_options
+
+    g = tr_lines.gen_files(str(lib.REPO))
+    g["Options.v"] = tr_options.translate(str(lib.REPO))
+    return g
 
 
 TRACKED_CFG_ROUTES = ["cli", "top", "override", "override_prefix"]
+
+
+def raw_independent(raw0, raw1, enabled):
+    """raw0: stream with everything enabled, raw1: stream under the disabling configuration; both
+    restricted to the codes enabled under that configuration must be the same list of
+    (code, line, col, obey) with the same which-calls-share-a-node pattern."""
+    def canon(raw):
+        ids, out = {}, []
+        for node, code, line, col, obey in raw:
+            if code in enabled:
+                out.append((ids.setdefault(node, len(ids)), code, line, col, obey))
+        return out
+    return canon(raw0) == canon(raw1)
 
 
 def make_cfg(route, S, extra_on=("unused_ignore", "bare_ignore")):
@@ -455,7 +505,7 @@ def run(tier: str, replay: str | None = None):
     proof = None
     try:
         gen = gen_files()
-    except tr_lines.TranslateError as ex:
+    except Exception as ex:  # TranslateError of either translator
         broken_translation = str(ex)
         gen = None
     if gen is not None:
@@ -495,7 +545,7 @@ def run(tier: str, replay: str | None = None):
         for c in corpus:
             b = add_base(c["base_lines"], c.get("tags") or ["to"] * len(c["base_lines"]))
             variants.append({"base": b, "cfg": c["cfg"], "edits": [tuple(e) for e in c["edits"]], "baseline_cfg": c.get("baseline_cfg")})
-        n_prog = 18 if tier == "quick" else 160
+        n_prog = 18 if tier == "quick" else 80
         specials = special_pairs(rng, 8 if tier == "quick" else 48)
         for pi in range(n_prog):
             lines, tags = gen_program(rng, size=1 if pi < 6 else None)
@@ -518,16 +568,24 @@ def run(tier: str, replay: str | None = None):
             d0 = d0s[bi]
             if base_res[bi]["error"]:
                 continue
-            exhaustive = tier == "thorough" and bi % 4 == 0
+            exhaustive = tier == "thorough" and bi % 5 == 0
             for es in single_edits(rng, lines, tags, d0, names, exhaustive):
                 variants.append({"base": bi, "cfg": base_cfg, "edits": es})
             for es in multi_edits(rng, lines, tags, d0, 4 if tier == "quick" else 10):
                 variants.append({"base": bi, "cfg": base_cfg, "edits": es})
             present = sorted({c for c, _, _ in d0 if c not in ("unused_ignore", "bare_ignore")})
             if present:
+                # every single code (reported ones and the ones only raised inside catch_errors trials),
+                # rotating through the disabling routes; then random subsets
+                singles = sorted(set(present) | set(HIDDEN_CODES))
+                if tier == "quick":
+                    singles = sorted(set(present[:]) | set(HIDDEN_CODES[:3])) if bi % 2 else singles
+                for ci, c in enumerate(singles):
+                    route = TRACKED_CFG_ROUTES[(bi + ci) % len(TRACKED_CFG_ROUTES)]
+                    variants.append({"base": bi, "cfg": make_cfg(route, [c]), "edits": []})
                 n_sub = 3 if tier == "quick" else 8
                 for si in range(n_sub):
-                    S = [c for c in present if rng.random() < 0.5] or [rng.choice(present)]
+                    S = [c for c in singles if rng.random() < 0.4] or [rng.choice(present)]
                     if si == 0:
                         S = S + [rng.choice(["bad_unpack", "unused_ignore"])]
                     route = rng.choice(TRACKED_CFG_ROUTES + ["override_other"]) if si else "cli"
@@ -579,6 +637,8 @@ def run(tier: str, replay: str | None = None):
     n_oracle = 0
     model_lines, model_meta = [], []
     out_of_fragment = 0
+    raw_dep = []
+    n_raw_hyp = 0
 
     def queue_model(tag, lines, cfg, r):
         nonlocal out_of_fragment
@@ -599,8 +659,15 @@ def run(tier: str, replay: str | None = None):
         queue_model(("cfgbase", bi), bases[bi][0], cfg, r)
         if r["error"] or base_res[bi]["error"]:
             continue
-        # D(P, disable S) == {d in D(P): code(d) not in S}
+        # hypothesis of C11_disable_end_to_end, checked per program: the raw stream, restricted to the codes
+        # still enabled, does not depend on which codes are disabled (same calls, same order, same node pattern)
         en = enabled_names(cfg, names, dit)
+        n_raw_hyp += 1
+        if not raw_independent(base_res[bi]["raw"], r["raw"], en):
+            raw_dep.append({"kind": "failing-input", "what": "the raw stream of show_error calls depends on which codes are disabled (hypothesis raw_indep of C11_disable_end_to_end fails)",
+                            "input": {"base_lines": bases[bi][0], "tags": bases[bi][1], "cfg": cfg, "edits": [], "baseline_cfg": base_cfg},
+                            "observed": [x[1:4] for x in r["raw"] if x[1] in en], "expected": [x[1:4] for x in base_res[bi]["raw"] if x[1] in en]})
+        # D(P, disable S) == {d in D(P): code(d) not in S}
         want = collections.Counter(d for d in d0s[bi] if d[0] in en)
         got = collections.Counter(tuple(x) for x in r["out"])
         n_oracle += 1
@@ -720,6 +787,7 @@ def run(tier: str, replay: str | None = None):
                             "guard_holds": bool(GUARDS[fid](vt)), "model_agrees_with_impl": special_model_agrees.get(si)})
 
     # 6. report
+    failing = failing + [x for x in raw_dep if not failing][:3] if not failing else failing + raw_dep[:2]
     for f in failing[:10]:
         f["how_to_run"] = "./check C11 --replay <this file>"
         rep.violation(f)
@@ -753,6 +821,8 @@ def run(tier: str, replay: str | None = None):
         samples=sample,
         traces_validated_against_impl=n_model - len(corr_mismatch),
         oracle_cases=n_oracle,
+        raw_independence_checked=n_raw_hyp,
+        raw_independence_failures=len(raw_dep),
         model_runs=n_model,
         feature_lines=n_feat,
         out_of_fragment_runs=out_of_fragment,
